@@ -222,7 +222,7 @@ pub fn build() -> Vec<Box<dyn TypeOps>> {
         ["derived"] S1, ["derived","big"] S2, ["derived","big","rename"] S3, ["derived"] Unit, ["derived"] EmptyRec, ["derived"] NewT, ["derived","big"] TupS,
         ["derived","generic"] Gen<u8, String>, ["derived","generic","big"] Gen<Nat, Int>, ["derived","generic","map"] Gen<BTreeMap<String, Nat>, Vec<u8>>, ["derived","generic"] Gen<S1, Gen<u8, u8>>,
         ["derived","variant","recursive","big"] E1, ["derived","variant"] Color, ["derived","recursive","big"] List, ["derived","recursive","variant","big"] Tree, ["derived","recursive","map","big"] MutA, ["derived","recursive","map","big"] MutB,
-        ["opt","deep"] Opt70, ["vec","opt","deep"] Vec<Opt70>, ["derived","recursive"] TriX, ["derived","recursive"] TriY, ["derived","recursive"] TriZ, ["opt","derived","recursive"] Option<TriZ>, ["vec","derived","recursive"] Vec<TriY>,
+        ["opt","deep"] Opt70, ["vec","opt","deep"] Vec<Opt70>, ["derived","recursive","variant"] TriV, ["derived","recursive"] TriVY, ["derived","recursive"] TriVZ, ["derived","recursive"] TriX, ["derived","recursive"] TriY, ["derived","recursive"] TriZ, ["opt","derived","recursive"] Option<TriZ>, ["vec","derived","recursive"] Vec<TriY>,
         ["vec","derived"] Vec<S1>, ["vec","derived","variant"] Vec<E1>, ["opt","derived","recursive"] Option<List>, ["map","derived","textkey"] BTreeMap<String, E1>, ["map","derived"] BTreeMap<u8, Tree>, ["vec","derived"] Vec<Color>,
         ["reference"] FuncRef, ["reference","recursive"] FuncRec, ["reference"] ServRef, ["reference","derived","map","bigval","big"] Refs, ["reference","vec"] Vec<FuncRef>, ["reference","opt"] Option<ServRef>,
     );
